@@ -279,10 +279,10 @@ def run(ck):
         ck.count('query-target-pairs', len(keep))
         ck.count('atom-matches', sum(len(r['maps']) for _, r in keep))
     # stereo marks of queries
-    shapes = ['F[C@](Cl)(Br)I', '[C@](F)(Cl)(Br)I', 'F[C@@](Cl)(Br)I', 'I[C@](F)(Cl)Br', 'F[C@H](Cl)Br', '[C@H](F)(Cl)Br', 'F[C@@H](Cl)Br', 'Cl[C@H](F)Br', 'F[C@](Cl)Br', '[C@](F)(Cl)Br', 'Br[C@@](F)Cl',
+    shapes = ['ClC(/F)=C/F', 'ClC(\\F)=C/F', 'ClC(/F)=C(/Br)I', 'ClC(/F)=C(Br)/I', 'Cl/C(F)=C(Br)/I', 'FC(/Cl)=C/Br', 'F[C@](Cl)(Br)I', '[C@](F)(Cl)(Br)I', 'F[C@@](Cl)(Br)I', 'I[C@](F)(Cl)Br', 'F[C@H](Cl)Br', '[C@H](F)(Cl)Br', 'F[C@@H](Cl)Br', 'Cl[C@H](F)Br', 'F[C@](Cl)Br', '[C@](F)(Cl)Br', 'Br[C@@](F)Cl',
               'C[C@H](N)O', 'N[C@@H](C)C(=O)O', 'C[C@](N)(O)C', 'F/C=C/Cl', 'F/C=C\\Cl', 'F/C(Cl)=C/Br', 'Cl/C=C/C', 'C/C=C\\C', 'C/C=C/C', 'C(/F)=C/Cl', 'F\\C=C/Cl', 'C[C@H](O)/C=C/C', 'N[C@@H](C)C',
               'C[C@@H]1CCCO1', 'O[C@H]1CC[C@@H](O)CC1'.replace('[C@@H](O)', 'C(O)')]
-    stargets = ['F[C@H](Cl)Br', 'F[C@@H](Cl)Br', 'F[C@](Cl)(Br)I', 'F[C@@](Cl)(Br)I', 'F[C@](Cl)(Br)C', 'F[C@@](Cl)(Br)C', 'I[C@](F)(Cl)Br', 'F/C=C/Cl', 'F/C=C\\Cl', 'F/C(Cl)=C/Br', 'F/C(Cl)=C\\Br', 'FC(Cl)Br',
+    stargets = ['ClC(/F)=C/F', 'ClC(/F)=C\\F', 'Cl/C(F)=C(/Br)I', 'Cl/C(F)=C(\\Br)I', 'F[C@H](Cl)Br', 'F[C@@H](Cl)Br', 'F[C@](Cl)(Br)I', 'F[C@@](Cl)(Br)I', 'F[C@](Cl)(Br)C', 'F[C@@](Cl)(Br)C', 'I[C@](F)(Cl)Br', 'F/C=C/Cl', 'F/C=C\\Cl', 'F/C(Cl)=C/Br', 'F/C(Cl)=C\\Br', 'FC(Cl)Br',
                 'C[C@H](N)O', 'C[C@@H](N)O', 'N[C@@H](C)C(=O)O', 'N[C@H](C)C(=O)O', 'C[C@](N)(O)CC', 'C[C@@](N)(O)CC', 'C/C=C\\C', 'C/C=C/C', 'CC=CC', 'C[C@H](O)/C=C/C', 'C[C@H](O)/C=C\\C', 'C[C@@H](O)/C=C/C',
                 'C[C@@H]1CCCO1', 'C[C@H]1CCCO1', 'O[C@H]1CCC(O)CC1', 'Cl/C=C/C', 'Cl/C=C\\C', 'N[C@@H](C)CC', '[2H][C@](F)(Cl)Br', 'F[C@]([H])(Cl)Br']
     stereo_corp = [x for x in corp if ('@' in x or '/' in x) and len(x) < 50]
